@@ -59,11 +59,24 @@ func (e *end) WritePacket(p []byte) error {
 	q := clone(p)
 	e.sent = append(e.sent, q)
 	w := clone(q)
+	scramble(p)
 	if e.xform != nil {
 		w = e.xform(len(e.sent)-1, w)
 	}
 	e.out <- w
 	return nil
+}
+
+// scramble does to a written packet what the real transport does ("writePacket destroys the
+// contents", ssh/handshake.go; "the contents of the packet are generally scrambled",
+// ssh/transport.go): a key exchange half that still needs the packet it has written (for the
+// exchange hash, say) would work against this harness's copies but not on a connection. The
+// packet conns of this check are used by the code under test only through the hook adapter
+// (verifC29Conn), never by the reference peers, which call Send with their own slices.
+func scramble(p []byte) {
+	for i := range p {
+		p[i] ^= 0xa5
+	}
 }
 
 func (e *end) ReadPacket() ([]byte, error) {
@@ -80,7 +93,7 @@ func (e *end) ReadPacket() ([]byte, error) {
 }
 
 func (e *end) Close()                { e.once.Do(func() { close(e.out) }) }
-func (e *end) Send(p []byte) error   { return e.WritePacket(p) }
+func (e *end) Send(p []byte) error   { return e.WritePacket(clone(p)) }
 func (e *end) Recv() ([]byte, error) { return e.ReadPacket() }
 
 // canned replays recorded server packets to a client half; no second party runs.
@@ -90,7 +103,7 @@ type canned struct {
 	sent    [][]byte
 }
 
-func (c *canned) WritePacket(p []byte) error { c.sent = append(c.sent, clone(p)); return nil }
+func (c *canned) WritePacket(p []byte) error { c.sent = append(c.sent, clone(p)); scramble(p); return nil }
 func (c *canned) ReadPacket() ([]byte, error) {
 	if c.next >= len(c.replies) {
 		return nil, io.EOF
@@ -140,6 +153,9 @@ func errStr(err error) string {
 
 func (e *env) transcript(label string) (ssh.VerifC29Magics, ref.Transcript) {
 	c := e.c
+	if isLong(label) {
+		return e.longTranscript(label)
+	}
 	vc := append([]byte("SSH-2.0-Go_"), []byte(fmt.Sprintf("%x", c.Bytes(label+"|vc", 0, 3)))...)
 	vs := append([]byte("SSH-2.0-OpenSSH_9.2p1 "), []byte(fmt.Sprintf("%x", c.Bytes(label+"|vs", 0, 2)))...)
 	n1 := 40 + int(c.Bytes(label+"|n", 0, 1)[0])
@@ -390,10 +406,12 @@ func kShape(kEnc []byte, hybrid bool) string {
 	return "mpint-plain"
 }
 
-func (e *env) agreeRR(kex, algo string) {
+func (e *env) agreeRR(kex, algo string) { e.agreeRRt(kex, algo, "") }
+
+func (e *env) agreeRRt(kex, algo, tag string) {
 	c := e.c
 	m, _ := ref.Lookup(kex)
-	label := fmt.Sprintf("%d|A|rr|%s|%s", c.Seed, kex, algo)
+	label := fmt.Sprintf("%d|A|rr|%s|%s%s", c.Seed, kex, algo, tag)
 	mg, tr := e.transcript(label)
 	o := e.runRR(kex, algo, label, mg, mg, nil, nil)
 	c.Eval(1)
@@ -434,7 +452,7 @@ func (e *env) agreeRR(kex, algo string) {
 			e.viol(kex+": K_S on the wire is not the server's host key", "algo", algo)
 		}
 	}
-	c.Nontrivial("A|rr|" + kex + "|" + algo)
+	c.Nontrivial("A|rr|" + kex + "|" + algo + tag)
 	c.Nontrivial("Kshape|" + kex + "|" + kShape(ck.K, m.Kind == ref.KindHybrid))
 	c.Outcome("honest exchange accepted")
 	if c.WantSample() {
@@ -1235,7 +1253,9 @@ func safePrime(p *big.Int) bool {
 
 func (e *env) gexCube() {
 	c := e.c
-	B := []uint32{0, 1, 1023, 1024, 2047, 2048, 2049, 3071, 3072, 3073, 4095, 4096, 4097, 8191, 8192, 8193, 0xffffffff}
+	B := []uint32{0, 1, 1023, 1024, 2047, 2048, 2049, 3071, 3072, 3073, 4095, 4096, 4097, 8191, 8192, 8193, 0xffffffff,
+		// the group sizes modulo 2^16, the sign bit of a 32-bit integer, -2048 as a 32-bit integer
+		1<<16 + 2048, 1<<16 + 3072, 1<<16 + 4096, 1<<31 - 1, 1 << 31, 0xfffff800}
 	nExtra := 2
 	if c.Thorough {
 		nExtra = 6
@@ -1349,7 +1369,8 @@ func run(c *vf.Ctx) {
 		"(+ the three mpint shapes of K, + GEX offers/requests); (B) every single fault of the honest exchange: a bit flip at every byte class of the reply " +
 		"(every byte for the fast methods), of the client's value, of the GEX request/group, every alteration of V_C,V_S,I_C,I_S on the client, and every wrong-signature " +
 		"variant by a reference server; (C) every invalid peer value of the boundary sets for the method, sent by a scripted peer to each half, plus valid controls; " +
-		"(D) every (min,preferred,max) of the boundary cube through the real GEX server path and chooseDH. A case is distinct by (part, method, host key algorithm, pairing/fault/value/triple).")
+		"(D) every (min,preferred,max) of the boundary cube (alphabet incl. 2^16+{2048,3072,4096}, 2^31-1, 2^31, 2^32-2048) through the real GEX server path and chooseDH; " +
+		"hardening: every packet a half writes is scrambled by the harness after it was copied (as the transport does); per method: long transcript strings (V_C 255, V_S 8, I_C 65537, I_S 35000 bytes) in all three pairings; a second complete exchange of the same method nested before each message of a reference peer (shared kexAlgoMap object); the same exchange re-run after everything else (same packets, H, K); DH values p+2, 2p-1, 2p+1, 2-p, -(p-2), 2^bits, 2^bits-1, 2^(bits+64)+2 and controls 3, p-3, 2^(bits-1) to both halves. A case is distinct by (part, method, host key algorithm, pairing/fault/value/triple).")
 	c.Assume("math/big, the hash functions, RSA/ECDSA/Ed25519/DSA signature primitives and crypto/mlkem of the Go standard library are trusted (shared by implementation and reference)")
 	c.Assume("the group exchange server knows groups of 2048, 3072 and 4096 bits (documented in ssh/kex.go); OpenSSH's choose_dh rule is taken over an ascending list")
 	c.Assume("value alphabet: ephemeral secrets and transcript strings are seeded; shapes (methods, algorithms, fault positions, boundary values, triples) do not depend on the seed")
@@ -1511,6 +1532,10 @@ func run(c *vf.Ctx) {
 		case ref.KindHybrid:
 			add(func() { e.invalidHybrid(kex) })
 		}
+	}
+
+	for _, f := range e.hardenedJobs() {
+		add(f)
 	}
 
 	// phase 1 runs the exchanges and baselines; the faults and per-value jobs they queue run flat in phase 2
